@@ -234,6 +234,8 @@ func (o HOp) String() string {
 		return fmt.Sprintf("T%d: %s", o.Txn, shortSQL(o.Stmt.SQL()))
 	case "checkpoint":
 		return "CHECKPOINT"
+	case "shutdown":
+		return "SHUTDOWN (clean)"
 	}
 	return fmt.Sprintf("T%d: %s", o.Txn, o.Kind)
 }
@@ -382,11 +384,46 @@ func RunHistory(seed *CrashSeed, ops []HOp) *HistoryRun {
 		}
 		return true
 	}
+	shutDown := false
+	walkHeaps := func() {
+		guard(func() {
+			for _, tm := range db.Cat().GetAllTables() {
+				if *tm.GetTableName() == "columns_catalog" {
+					continue
+				}
+				pid := tm.Table().GetFirstPageID()
+				for n := 0; pid.IsValid() && n < 256; n++ {
+					hr.HeapPages[int32(pid)] = true
+					pg := db.BPM().FetchPage(pid)
+					if pg == nil {
+						break
+					}
+					next := access.CastPageAsTablePage(pg).GetNextPageID()
+					db.BPM().UnpinPage(pid, false)
+					pid = next
+				}
+			}
+		})
+	}
 	for _, op := range ops {
-		if dead[op.Txn] {
+		if dead[op.Txn] && op.Kind != "shutdown" {
 			continue
 		}
 		switch op.Kind {
+		case "shutdown":
+			// a clean Shutdown() as the last operation (no transaction open): crash points inside it see a log
+			// that may already end with the graceful-shutdown record while pages are still being written.
+			// (The harness' heap walk comes first: afterwards the database is closed; what it evicts is part of
+			// the history, like the reads of any user.)
+			walkHeaps()
+			hr.Kinds["shutdown"] = true
+			rec.Mark("shutdown-begin")
+			if !step("shutdown", db.Shutdown) {
+				goto done
+			}
+			rec.Mark("shutdown-end")
+			shutDown = true
+			hr.Executed = append(hr.Executed, op.String())
 		case "begin":
 			txns[op.Txn] = db.Begin()
 			hr.TxnIDs[op.Txn] = int32(txns[op.Txn].T.GetTransactionID())
@@ -471,28 +508,15 @@ done:
 	// the heap walk below may evict dirty pages (small pools): those writes are not part of the history
 	// (no crash point is placed in them) but they are part of what Conforms compares
 	nDone := len(rec.Events)
-	guard(func() {
-		for _, tm := range db.Cat().GetAllTables() {
-			if *tm.GetTableName() == "columns_catalog" {
-				continue
-			}
-			pid := tm.Table().GetFirstPageID()
-			for n := 0; pid.IsValid() && n < 256; n++ {
-				hr.HeapPages[int32(pid)] = true
-				pg := db.BPM().FetchPage(pid)
-				if pg == nil {
-					break
-				}
-				next := access.CastPageAsTablePage(pg).GetNextPageID()
-				db.BPM().UnpinPage(pid, false)
-				pid = next
-			}
-		}
-	})
+	if !shutDown {
+		walkHeaps()
+	}
 	rec.On = false
 	hr.Events = rec.Events[:nDone:nDone]
 	hr.tail = rec.Events[nDone:]
-	db.Kill()
+	if !shutDown {
+		db.Kill()
+	}
 	hr.Final = readImage(path)
 	return hr
 }
@@ -687,6 +711,10 @@ func (hr *HistoryRun) ctxAt(n int) string {
 				ctx = "inside-checkpoint"
 			case "ckpt-end":
 				ctx = "after-checkpoint"
+			case "shutdown-begin":
+				ctx = "inside-shutdown"
+			case "shutdown-end":
+				ctx = "after-shutdown"
 			}
 		}
 	}
@@ -717,6 +745,10 @@ func (hr *HistoryRun) Class(p CrashPoint) string {
 				ctx = "inside-checkpoint"
 			case "ckpt-end":
 				ctx = "after-checkpoint"
+			case "shutdown-begin":
+				ctx = "inside-shutdown"
+			case "shutdown-end":
+				ctx = "after-shutdown"
 			}
 		}
 	}
